@@ -331,6 +331,7 @@ class Gap:
     needs_space: bool  # tokens would merge / change meaning without a separator
     in_interp_of_string: bool
     in_attrpath: bool = False  # inside an attrpath (nima keeps attrpath text raw)
+    lca_id: int = 0  # identity of the lowest common ancestor node (construct instance)
 
 
 def _lca(a, b):
@@ -354,6 +355,18 @@ def _inside(node, types) -> bool:
             return True
         n = n.parent
     return False
+
+
+def _construct_id(node) -> int:
+    """Identity of the construct instance a gap belongs to; operator / application chains (nested nodes of the
+    same kind, which formatters lay out as one unit) count as one construct."""
+    if node is None:
+        return 0
+    if node.type in ("binary_expression", "apply_expression"):
+        t = node.type
+        while node.parent is not None and node.parent.type == t:
+            node = node.parent
+    return node.id
 
 
 def _inside_attrpath_interp(node) -> bool:
@@ -464,6 +477,7 @@ def code_gaps(tree_or_text):
                     (prev is not None and n is not None and _inside(prev, ("attrpath",)) and _inside(n, ("attrpath",)))
                     or (prev is not None and _inside_attrpath_interp(prev))
                     or (n is not None and _inside_attrpath_interp(n)),
+                    _construct_id(_lca(prev, n)) if prev is not None and n is not None else 0,
                 )
             )
             idx += 1
